@@ -140,6 +140,12 @@ def _partition(ck: Checker) -> None:
     rets = [r for r in walk_own(fn.node) if isinstance(r, ast.Return) and isinstance(r.value, ast.Call) and call_name(r.value) == "CompareStatusResult"]
     ck.floor("C12.partition", len(rets), 1, "CompareStatusResult(...) return sites")
     for r in rets:
+        # a return that can only be reached when nothing is missing in dest AND deleted was not requested is the
+        # shortcut itself: every queried object is in dest, and the source is taken to have it too
+        rn = next((x for x in g.nodes.values() if x.ast is r), None)
+        combos = list(itertools.product([False, True], repeat=2))
+        if rn is not None and all(cut(g, [rn.id], lambda t, lab, nm=nm: t.kind == "test" and isinstance(t.ast, ast.Name) and t.ast.id == nm and lab == "F") is None for nm in ("dest_missing", "check_deleted")):
+            combos = [(True, True)]
         comp = {}
         for i, a in enumerate(r.value.args):
             if i < len(fields):
@@ -154,7 +160,7 @@ def _partition(ck: Checker) -> None:
             ok, why = True, ""
             e = _resolve_set_expr(g, r, e)
             try:
-                for s, d in itertools.product([False, True], repeat=2):
+                for s, d in combos:
                     env = {"src_exists": s, "dest_exists": d, "src_missing": not s, "dest_missing": not d}
                     got = eval_set(e, env)
                     if got != want(s, d):
